@@ -150,7 +150,7 @@ def _run_slice(args):
     try:  # a runaway allocation in the code under test must become a MemoryError in this worker, not an OOM kill of the box
         import resource
 
-        lim = 6 << 30
+        lim = 3 << 30
         resource.setrlimit(resource.RLIMIT_AS, (lim, lim))
     except Exception:  # noqa: BLE001
         pass
